@@ -72,15 +72,30 @@ Lemma cntl_repeat : forall f x n, cntl f (repeat x n) = n * f (pc x).
 Proof. unfold cntl. induction n; simpl; auto. Qed.
 
 (* ---- pointwise views ------------------------------------------------------------------------------------- *)
-Definition pcw (f : pcs -> nat) (s : st) (n : nat) : nat :=
-  match get s n with Some y => f (pc y) | None => 0 end.
-Definition pcP (P : pcs -> Prop) (s : st) (n : nat) : Prop :=
-  match get s n with Some y => P (pc y) | None => True end.
+Definition pcwl (f : pcs -> nat) (l : list co) (n : nat) : nat :=
+  match nth_error l n with Some y => f (pc y) | None => 0 end.
+Definition pcPl (P : pcs -> Prop) (l : list co) (n : nat) : Prop :=
+  match nth_error l n with Some y => P (pc y) | None => True end.
+Definition pcw (f : pcs -> nat) (s : st) (n : nat) : nat := pcwl f (cos s) n.
+Definition pcP (P : pcs -> Prop) (s : st) (n : nat) : Prop := pcPl P (cos s) n.
 
-Lemma pcw_ge : forall f s n, pcw f s n <= cnt f s.
+Lemma pcwl_ge : forall f l n, pcwl f l n <= cntl f l.
 Proof.
-  unfold pcw, cnt, get. intros. destruct (nth_error (cos s) n) eqn:E; [|lia]. eapply cntl_ge; eauto.
+  unfold pcwl. intros. destruct (nth_error l n) eqn:E; [|lia]. eapply cntl_ge; eauto.
 Qed.
+
+Lemma pcwl_set_nth : forall f l c v x n,
+  nth_error l c = Some x -> pcwl f (set_nth c v l) n = if Nat.eq_dec n c then f (pc v) else pcwl f l n.
+Proof.
+  unfold pcwl. intros. rewrite (nth_error_set_nth _ _ _ n v x H). destruct (Nat.eq_dec n c); auto.
+Qed.
+Lemma pcPl_set_nth : forall P l c v x n,
+  nth_error l c = Some x -> pcPl P (set_nth c v l) n = if Nat.eq_dec n c then P (pc v) else pcPl P l n.
+Proof.
+  unfold pcPl. intros. rewrite (nth_error_set_nth _ _ _ n v x H). destruct (Nat.eq_dec n c); auto.
+Qed.
+Lemma pcwl_at : forall f l c x, nth_error l c = Some x -> pcwl f l c = f (pc x).
+Proof. unfold pcwl. intros. rewrite H. auto. Qed.
 
 Lemma count_occ_app1 : forall l n c,
   count_occ Nat.eq_dec (l ++ [c]) n = count_occ Nat.eq_dec l n + (if Nat.eq_dec c n then 1 else 0).
